@@ -22,6 +22,8 @@ CT == [op |-> "CreateTable", c |-> "c1", t |-> T1, hash |-> [n |-> "h", ty |-> K
 SetupDef == << CT >>
 MenuDef == SetToSeq( { Put(T1, it) : it \in Items } \cup { Get(T1, k) : k \in Keys } \cup { Del(T1, k, TRUE) : k \in Keys }
                      \cup { Upd(T1, k, SetU("v", Val(":n")), One(":n", Num(1))) : k \in Keys }
+                     \* create-if-absent: the item an upsert creates carries its key attributes, also when a condition guards it
+                     \cup { UpdC("c1", T1, K(i, i), SetU("v", Val(":n")), Cond(Fn("attribute_not_exists", <<Path("h")>>)), <<>>, One(":n", Num(1)), FALSE) : i \in 1..3 }
                      \cup { Upd(T1, K(1, 1), SetU("h", Val(":x")), One(":x", V(<<122>>))), Upd(T1, K(1, 1), RemU("r"), <<>>),
                             Upd(T1, K(1, 1), SetU("r", Val(":x")), One(":x", V(<<122>>))) }
                      \cup { Put(T1, bk @@ [who |-> Num(0)]) : bk \in BadKeys } \cup { Get(T1, bk) : bk \in BadKeys }
